@@ -509,7 +509,7 @@ def run_setter_verbatim(prog, rep, classes=('nix::Property',), floor=2):
                     continue
                 fl = fl or Flow(sem, f)
                 org = fl.origins(unwrap(a))
-                calls = sorted(set(o[1] for o in org if o[0] == 'call'))
+                calls = sorted(set(o[1] for o in org if o[0] == 'call' and o[1] not in CONTAINER_ACCESS))
                 if set(calls) & {'element_data_type', 'data', 'shape'}:
                     continue        # Hydra adapter around the caller's container (buffer pointer, element type, shape): R-BUF / R-DISPATCH
                 other = sorted(set(o[0] for o in org if o[0] not in ('call', 'param', 'const', 'lit')))
@@ -530,6 +530,9 @@ def run_setter_verbatim(prog, rep, classes=('nix::Property',), floor=2):
         raise AnalysisBroken('R-SETVERB: only %d setter arguments found' % n)
     return rule
 
+
+# element access of a container is not a transformation of the element
+CONTAINER_ACCESS = ('operator[]', 'at', 'front', 'back', 'begin', 'end', 'cbegin', 'cend', 'operator*', 'operator->', 'get', 'value')
 
 # encoders between a setter's parameter and the stored attribute; each has its own codec rule
 STORE_ENCODERS = {
@@ -559,7 +562,7 @@ def run_store_verbatim(prog, rep, floor=25):
                 continue
             n += 1
             k += 1
-            calls = sorted(set(o[1] for o in org if o[0] == 'call'))
+            calls = sorted(set(o[1] for o in org if o[0] == 'call' and o[1] not in CONTAINER_ACCESS))
             bad = [x for x in calls if x not in STORE_ENCODERS]
             key = '%s%s|store%d' % (f.q, f.sig, k)
             if bad:
